@@ -7,7 +7,9 @@ PARAM_POOL = ["N", "M", "x", "y"]
 LOCAL_POOL = ["L", "w"]
 SIZE_POOL = ["n", "m", "s", "N"]
 CHILD_NAMES = ["a", "b", "c", "d"]
-RES_POOL = [("T", "additive"), ("Q", "additive"), ("P", "multiplicative"), ("info", "other"), ("anc", "qubits")]
+# (in name order, which is the order QREF keeps them in: G additive, P multiplicative, Q additive, ... -- resources of one type
+# are not always next to each other)
+RES_POOL = [("T", "additive"), ("Q", "additive"), ("P", "multiplicative"), ("info", "other"), ("anc", "qubits"), ("G", "additive")]
 FUNCS = ["f", "g"]
 COUNT_NAMES = ("K", "R")
 
@@ -54,6 +56,10 @@ def gen_sequence(rng, syms):
     kind = rng.choice(["constant", "constant", "arithmetic", "geometric", "closed_form", "custom"])
     p = lambda: (E.sym(rng.choice(syms)) if syms and rng.random() < 0.5 else E.num(rng.choice([2, 3, 1, Fraction(1, 2)])))  # noqa: E731
     if kind == "constant":
+        if syms and rng.random() < 0.25:
+            # a compound multiplier: neither a number nor a bare parameter
+            m = E.sym(rng.choice(syms))
+            return {"kind": kind, "multiplier": rng.choice([E.op("mul", E.num(2), m), E.op("add", m, E.num(1))])}
         return {"kind": kind, "multiplier": E.sym(rng.choice(syms)) if syms and rng.random() < 0.4 else E.num(rng.randint(1, 3))}
     if kind == "arithmetic":
         return {"kind": kind, "initial_term": p(), "difference": p()}
@@ -146,6 +152,12 @@ class Gen:
         scope_l = scope + [l[0] for l in locals_]
         if len(locals_) >= 2 and rng.random() < 0.5:
             locals_.reverse()      # listed against their dependency order (w = ... L ..., then L = ... n ...)
+        if locals_ and not self.qubits and rng.random() < 0.12:
+            # an input port sized by a bare symbol that is ALSO the name of a declared local variable: the port binds the
+            # name (the incoming size), the declared definition is superseded
+            unsized = [q for q in ports if q["size"] is None and q["direction"] == "input"]
+            if unsized:
+                rng.choice(unsized)["size"] = E.sym(rng.choice(locals_)[0])
         n_out = rng.randint(0, 2)
         for k in range(n_out):
             if self.qubits and size_syms and rng.random() < 0.3:
@@ -605,21 +617,30 @@ def node_at(r, path):
 
 # ------------------------------------------------------------------ listing order (C09)
 
-def permute_lists(r, rng, child_perm=None):
-    """The same routine with every list-valued field listed in another order (recursively)."""
+def permute_lists(r, rng, child_perm=None, reverse=False):
+    """The same routine with every list-valued field listed in another order (recursively); `reverse`: exactly reversed
+    (whatever came first now comes last: the partner that differs from the original in EVERY pairwise order)."""
     n = dict(r)
-    kids = [permute_lists(c, rng) for c in r["children"]]
+    kids = [permute_lists(c, rng, reverse=reverse) for c in r["children"]]
     if child_perm is not None:
         kids = [kids[i] for i in child_perm]
+    elif reverse:
+        kids.reverse()
     else:
         rng.shuffle(kids)
     n["children"] = kids
     for f in ("ports", "resources", "connections", "input_params", "local_variables"):
         l = list(r[f])
-        rng.shuffle(l)
+        if reverse:
+            l.reverse()
+        else:
+            rng.shuffle(l)
         n[f] = l
-    links = [[s, rng.sample(ts, len(ts))] for s, ts in r["linked_params"]]
-    rng.shuffle(links)
+    links = [[s, (list(reversed(ts)) if reverse else rng.sample(ts, len(ts)))] for s, ts in r["linked_params"]]
+    if reverse:
+        links.reverse()
+    else:
+        rng.shuffle(links)
     n["linked_params"] = links
     return n
 
